@@ -27,7 +27,7 @@ ASSUMPTIONS = ['a crash during the cache write leaves a prefix of the intended f
                'cache files that are valid JSON but semantically wrong are outside the statement']
 REQUIRED = ['mon.cached_connects', 'mon.cache_hits', 'mon.truncation_offsets', 'mon.truncated_connects',
             'mon.garbled_files', 'mon.crc_collision_cases', 'mon.ro_dir_audited', 'mon.audit_events_seen',
-            'mon.files_vanished_before_connect']
+            'mon.files_vanished_before_connect', 'mon.files_with_a_field_missing']
 DESC_TIMEOUT = 1500
 EXHAUSTIVE = {'quick': False, 'thorough': False}
 EXHAUSTIVE_NOTE = 'truncation offsets are enumerated completely for every written cache file (fetch level); connections on a sample'
@@ -294,6 +294,32 @@ def run(desc, ctx):
                     judge_conn(ob, 'file-missing-at-connect:' + how)
                     ctx.count('mon.files_vanished_before_connect')
                     ctx.nontrivial((core.h64(prof), 'vanish', f, how, where))
+        # ---- well-formed JSON that lacks a field of some or all elements (e.g. a file written by a version that did
+        # not store that field yet): whatever the library makes of it, the tables at `connected` must be the device's
+        for f in files:
+            try:
+                doc = json.loads(content[f].decode('utf8'))
+            except Exception:
+                continue
+            elems = [e for g in doc.values() if isinstance(g, dict) for e in g.values() if isinstance(e, dict)]
+            keys = sorted({k for e in elems for k in e if k != '__class__'})
+            for key in keys:
+                for scope in ('all', 'one'):
+                    doc2 = json.loads(content[f].decode('utf8'))
+                    el2 = [e for g in doc2.values() if isinstance(g, dict) for e in g.values() if isinstance(e, dict)]
+                    if not el2:
+                        continue
+                    for e in (el2 if scope == 'all' else [el2[rnd.randrange(len(el2))]]):
+                        e.pop(key, None)
+                    d2 = os.path.join(base, 'rw_f')
+                    shutil.rmtree(d2, ignore_errors=True)
+                    shutil.copytree(scratch, d2)
+                    with open(os.path.join(d2, f), 'w') as fh:
+                        json.dump(doc2, fh)
+                    ob = connect_once(prof, d2 if key < 'i' else None, None if key < 'i' else d2, desc['seed'] + 57)
+                    judge_conn(ob, 'field-missing-in-file:' + key)
+                    ctx.count('mon.files_with_a_field_missing')
+                    ctx.nontrivial((core.h64(prof), 'field', f, key, scope))
         # ---- garbling that breaks JSON
         for f in files:
             for _ in range(3):
